@@ -23,12 +23,12 @@ def _rel(p):
     return None
 
 
-def gate(kind, path, data=None):
+def gate(kind, path, data=None, extra=None):
     """called before a mutating call; returns normally if the call may proceed"""
     rel = _rel(path)
     if rel is None: return
     idx = len(LOG)
-    LOG.append([kind, rel])
+    LOG.append([kind, rel] + ([_rel(extra)] if extra is not None else []))
     if KILL_AT is not None and idx == KILL_AT:
         if TORN and kind == 'write' and data is not None:
             f, payload = data
@@ -95,10 +95,10 @@ def install():
     def g_rmdir(path, *, dir_fd=None):
         gate('rmdir', resolve(path, dir_fd)); return _real['rmdir'](path, dir_fd=dir_fd)
     def g_rename(src, dst, *, src_dir_fd=None, dst_dir_fd=None):
-        gate('rename', resolve(src, src_dir_fd)); LOG[-1].append(_rel(resolve(dst, dst_dir_fd)))
+        gate('rename', resolve(src, src_dir_fd), None, resolve(dst, dst_dir_fd))
         return _real['rename'](src, dst, src_dir_fd=src_dir_fd, dst_dir_fd=dst_dir_fd)
     def g_replace(src, dst, *, src_dir_fd=None, dst_dir_fd=None):
-        gate('rename', resolve(src, src_dir_fd)); LOG[-1].append(_rel(resolve(dst, dst_dir_fd)))
+        gate('rename', resolve(src, src_dir_fd), None, resolve(dst, dst_dir_fd))
         return _real['replace'](src, dst, src_dir_fd=src_dir_fd, dst_dir_fd=dst_dir_fd)
     builtins.open = g_open; io.open = g_open
     os.mkdir = g_mkdir; os.unlink = g_unlink; os.remove = g_remove; os.rmdir = g_rmdir; os.rename = g_rename; os.replace = g_replace
